@@ -169,6 +169,10 @@ def correspond(res, batches, ctx):
         ls, meta = requests_for(events)
         lines += ls
         owners += [(cid, ev) for ev in meta]
+        first = next((ev for ev in events if ev['op'] == 'write'), None)
+        if first is not None:      # hypotheses of the section theorems, evaluated by the model on the object written first
+            lines.append('hyp ' + ' '.join(W.to_tokens(first['obj'], first['obj']['extra_precision'], first['obj']['echo'])))
+            owners.append((cid, {'op': 'hyp'}))
     if not lines:
         return
     lines.insert(0, 'chk')
@@ -179,6 +183,15 @@ def correspond(res, batches, ctx):
         fc['disagreements'] += 1
         res.disagreements.append(dict(facet='record_tables', case={}, model=replies[0], impl='preprocess_specification of Gen/Specs'))
     for (cid, ev), reply in zip(owners, replies[1:]):
+        if ev['op'] == 'hyp':
+            w = reply.split(' ')
+            if w[0] != 'ok':
+                raise RuntimeError('driver hyp reply: %s' % reply[:100])
+            for name, frac in zip(w[1::2], w[2::2]):
+                a, b = frac.split('/')
+                h = res.hyp.setdefault(name + ' (objects of the kind satisfying the theorem hypothesis / explored)', [0, 0])
+                h[0] += int(a); h[1] += int(b)
+            continue
         f = fw if ev['op'] == 'write' else fr
         f['cases'] += 1
         bad = compare_reply(ev, reply)
